@@ -418,7 +418,9 @@ func EntityDoc(e *Entity) Map {
 	if e.Profile != "" {
 		m.Add("profile", str(p, e.Profile))
 	}
-	if e.Serial != nil {
+	if e.SerialRaw != "" {
+		m.Add("serialNumber", RawScalar(e.SerialRaw))
+	} else if e.Serial != nil {
 		m.Add("serialNumber", *e.Serial)
 	}
 	if e.IssuerUID != nil {
